@@ -223,6 +223,10 @@ def run_job(job, cfg, scratch, keep=False, variant=None):
             raise Undecided('unwinding bound too small (and nothing else fails): %s' % unw[0]['id'])
         if unw: obl = [p for p in obl if p not in unw]      # a loop running past its structural bound is reported through the obligations it breaks
         r.canaries = len(can)
+        hard = [p for p in obl if p['status'] in ('FAILURE', 'ERROR')]
+        unknown = [p for p in obl if p['status'] == 'UNKNOWN']
+        if unknown and not hard: raise Undecided('%d obligations left UNKNOWN by cbmc (%s ...)' % (len(unknown), unknown[0]['id'][:80]))
+        obl = [p for p in obl if p['status'] != 'UNKNOWN']         # UNKNOWN next to real failures = downstream of them, not reported separately
         r.failed = [p for p in obl if p['status'] != 'SUCCESS']
         r.known_hit = [p for p in kn if p['status'] != 'SUCCESS']
         r.n_obl = len(obl); r.n_ok = len(obl) - len(r.failed)
